@@ -335,7 +335,11 @@ Fixpoint join_args (l : list digits) : str :=
   | [a] => a
   | a :: r => a ++ [44; 32] ++ join_args r
   end.
+(* a zero argument is falsy and several type compilers then leave it out (VARCHAR(0) renders VARCHAR): not
+   modelled - such a type has no rendering here (the fixed point is still checked on the implementation) *)
+Definition is_zero (d : digits) : bool := match d with [c] => c =? 48 | _ => false end.
 Definition render_type (tab : afftab) (t : rtype) : option str :=
+  if existsb is_zero (rt_args t) then None else
   match lookup_render (a_render tab) (rt_class t) (length (rt_args t)) with
   | Some (name, k) =>
       Some (match k with O => name | _ => name ++ [lpar] ++ join_args (firstn k (rt_args t)) ++ [rpar] end)
